@@ -27,13 +27,17 @@ Fixpoint ins_idx (x : nat * Z) (l : list (nat * Z)) : list (nat * Z) :=
 Definition stable_order (l : list hnote) : list nat :=
   map fst (fold_right ins_idx [] (combine (seq 0 (length l)) (map hn_off l))).
 
-Definition all_orders (src tgt : hmap) (recorded : list (list nat * list nat)) : list (list nat * list nat) :=
+(* a recorded order is None when the implementation did not sort that frame (then: the stable order) *)
+Definition all_orders (src tgt : hmap) (recorded : list (option (list nat) * option (list nat)))
+  : list (list nat * list nat) :=
   let ss := stable_order (filter loud (notes_df src)) in
   let st := stable_order (notes_df tgt) in
-  recorded ++ flat_map (fun pq => [(fst pq, st); (ss, snd pq)]) recorded ++ [(ss, st)].
+  let get (d : list nat) (o : option (list nat)) := match o with Some p => p | None => d end in
+  let rec' := map (fun pq => (get ss (fst pq), get st (snd pq))) recorded in
+  rec' ++ flat_map (fun pq => [(fst pq, st); (ss, snd pq)]) rec' ++ [(ss, st)].
 
 Inductive c18case :=
-| C18 (src tgt : hmap) (orders : list (list nat * list nat)) (out : hmap) (src_same tgt_same : bool).
+| C18 (src tgt : hmap) (orders : list (option (list nat) * option (list nat))) (out : hmap) (src_same tgt_same : bool).
 
 Record verdict := { corr_ok : bool; spec_ok : bool; wf_ok : bool }.
 
